@@ -16,6 +16,9 @@ B1: TLC enumerates EVERY environment script up to a bound (exhaustive) and simul
     Scripts include malformed event bodies at any point of a session under both BadFrameStrategy configurations the
     callers use (ReportStrategy(AlwaysAbort | AlwaysIgnore).boxed(); map-event downlinks with NoInterpretation), consumers
     writing garbage / non-UTF-8 keys on their command channel, take/drop events, stop requests and a vanishing socket.
+    Inactivity (empty_timeout, the read / write halves' stop votes): specs/Gen_DownlinkInactivity.tla enumerates every
+    order of clock advances, remote reads, lane events, attach / drop / a consumer breaking its command stream; these
+    executions are judged by P alone (S9: the runtime stops by itself only for inactivity and cuts no served session).
 B2: every recorded execution (conforming or not) is validated by TLC against P
     (specs/Trace_DownlinkSession.tla); rejection => VIOLATION, unless it is the deviation action of an
     OPEN known finding (known_findings/C07.json), which prints KNOWN-FINDING.
@@ -75,7 +78,7 @@ BOTH = strset(["abort", "ignore"])
 
 # ----------------------------------------------------------------------------- scripts <-> cases
 
-INPUT = {"k", "c", "sync", "keep", "op", "hold", "settle", "how"}
+INPUT = {"k", "c", "sync", "keep", "op", "hold", "settle", "how", "ms"}
 
 
 def concretise(x, b):
@@ -430,6 +433,27 @@ def run(tier, out):
     small = [dict(c, id=c["id"] + "s", cfg=dict(c["cfg"], ccap=7)) for c in base[::(3 if tier == "quick" else 1)]]
     groups.append(("small consumer channels", small, True))
     gen.append({"config": "small consumer channels", "mode": "rerun", "scripts": len(small), "tlc_states": 0, "wall_s": 0})
+    # inactivity: every order of clock advances (empty_timeout), remote reads, lane events with and without a consumer,
+    # attach / drop and a consumer breaking its command stream (the write half idle while the read half serves it);
+    # no mechanism model for this dimension - P (S9) alone judges the recorded executions
+    q = tier == "quick"
+    r = core.run_tlc("Gen_DownlinkInactivity",
+                     core.cfg(constants=dict(MaxLen=7 if q else 8, MaxAdv=3, MaxRead=1 if q else 2, MaxSet=1, MaxUpd=0 if q else 1,
+                                             Halves=not q), invariants=["Dump"]),
+                     os.path.join(wd, "gen_inactivity"), workers=1, timeout=1200, coverage=False)
+    if not r.ok:
+        raise core.ToolError("Gen_DownlinkInactivity failed: %s" % r.status)
+    idle = []
+    for cap in (0, 1):
+        for i, sc in enumerate(r.tagged.get("SCRIPT", [])):
+            acts = [dict(a, settle=True, exp={}) for a in sc] + [{"k": "finish", "settle": True, "exp": {}}]
+            idle.append({"id": "i%d.%d" % (cap, i), "cfg": {"kind": "map", "cap": cap, "init": {"k1": "i1"}, "timeout_ms": 1000},
+                         "acts": acts})
+    groups.append(("inactivity scripts", idle, False))
+    gen.append({"config": "inactivity scripts", "mode": "bfs", "scripts": len(idle), "tlc_states": r.distinct, "wall_s": round(r.wall, 1)})
+    core.log("[C07] generated inactivity scripts (bfs): %d scripts (TLC %.1fs)" % (len(idle), r.wall))
+    states += r.distinct
+    transitions += r.generated
     allc = [c for (_, cs, _) in groups[1:] for c in cs]
     t0 = time.time()
     res = rp.run_cases("h_runtime", "dlruntime", [strip(c) for c in allc], wd, tag="all", strip=False)
